@@ -1382,7 +1382,11 @@ func (c *Conn) readAndProcessDatagram(ctx context.Context) (datagramProcessingSu
 
 	pkts, err := c.unpackDatagram(b[:i])
 	if err != nil {
-		return datagramProcessingSummary{}, err
+		// A datagram that does not split into records is a decode error and must
+		// be silently discarded [RFC6347 Section-4.1.2.7], not handed to Read.
+		c.log.Debugf("discarded broken datagram: %v", err)
+
+		return datagramProcessingSummary{}, nil
 	}
 
 	var summary datagramProcessingSummary
